@@ -1,6 +1,9 @@
 """C12 -- DataFrame projection, filter, sort, limit and union match SQL semantics.
 
-case = (table1, table2, ops)
+case = (table1, table2, ops, conv)
+  conv  = seed of the public calling conventions the harness uses (0 = canonical): names vs F.col vs df['a'] vs df.a,
+          lit(1) vs a raw 1 on either side of an operator, filter / where / df[cond], sort / orderBy, keys as varargs or
+          one list, F.desc('a') vs col.desc(), union / unionAll, dropDuplicates / drop_duplicates ...  The model ignores it.
   table = (names, types, partitions)     types: 'i' int, 'd' double, 's' string, 'b' boolean
                                          partitions: list of lists of row tuples (cells None/int/float/str/bool)
   ops   = list of operator tuples (integer tag first), expressions are tuples (integer tag first)
@@ -24,12 +27,16 @@ RULE = ('random tier: two typed nullable tables (2-4 columns of int/double/strin
         'value domains so that ties and duplicates are frequent) cut into 1-4 arbitrary partitions (empty ones included), '
         'a chain of 1-3 operators out of select / filter / withColumn (new and replacing) / drop / withColumnRenamed / toDF / '
         'union / unionByName (second table projected to the current schema) / distinct / dropDuplicates / orderBy '
-        '(1-3 keys, every SortOrder wrapper, expression keys) / limit, with well-typed expression trees of depth <= 3 over '
+        '(1-3 keys, every SortOrder wrapper, expression keys, `ascending` absent / scalar / list of flags) / limit, each '
+        'called through a randomly drawn public calling convention (names vs F.col vs df[..] vs df.attr, raw Python '
+        'literals on either side of operators, filter/where/df[cond], sort/orderBy with varargs or a list, functions vs '
+        'Column methods, unionAll, drop_duplicates), with well-typed expression trees of depth <= 3 over '
         'arithmetic (+ - * / unary minus, % on non-negative operands), comparison (= != < <= > >= incl. int-vs-double), '
         'AND OR NOT, isNull / isNotNull, between, coalesce, when/otherwise, alias, lit; exhaustive tier: every binary and '
         'unary operator over all pairs from a 9-value domain per type (3-value for boolean) incl. null, 0, -0.0, negative and '
         'fractional values, for the type pairs int-int, int-double, double-int, double-double, string-string, bool-bool; '
-        'dynamic tier (correspondence only): the modelled ill-typed behaviour of the class dispatch (bool as int, casts to '
+        'sort-convention sweep: every wrapper (or none) per key x every form of `ascending` for one key, a sample (quick) / '
+        'all (thorough) of the 49 wrapper pairs x 7 forms for two keys; dynamic tier (correspondence only): the modelled ill-typed behaviour of the class dispatch (bool as int, casts to '
         'bool in comparisons, truthiness of non-booleans, str + str); '
         'non-trivial = the chain is non-empty and some step has rows; distinct by canonical JSON of the case')
 ASSUMPTIONS = [
@@ -77,51 +84,109 @@ def _session():
     return _ctx['sc'], _ctx['spark']
 
 
-def _col(e):
+class Conv:
+    """Which of the equivalent public calling conventions the harness uses at each choice point.
+    seed 0 = the canonical ones (F.col / F.lit / Column arguments / orderBy(*keys)); any other seed draws every
+    choice from random.Random(seed), so a case (which carries the seed) is replayed identically."""
+
+    def __init__(self, seed):
+        import random
+        self.rnd = random.Random(seed) if seed else None
+
+    def coin(self, p=0.5):
+        return self.rnd is not None and self.rnd.random() < p
+
+    def pick(self, n):
+        return self.rnd.randrange(n) if self.rnd is not None else 0
+
+
+def _colref(name, cx, df):
+    """F.col('a') | df['a'] | df.a   (the last two are bound to the frame the operator is applied to)"""
+    from pysparkling.sql import functions as F
+    k = cx.pick(3) if df is not None else 0
+    if k == 1:
+        return df[name]
+    if k == 2 and not hasattr(type(df), name):
+        return getattr(df, name)
+    return F.col(name)
+
+
+def _raw_ok(e, strings=True):
+    return e[0] == LIT and (strings or not isinstance(e[1], str))
+
+
+def _pair(a, b, cx, df):
+    """operands of a binary operator: at most one of them as a plain Python value (col + 1, 1 + col)"""
+    if _raw_ok(b) and b[0] == LIT and a[0] != LIT and cx.coin(0.4):
+        return _col(a, cx, df), b[1]
+    if _raw_ok(a) and b[0] != LIT and cx.coin(0.4):
+        return a[1], _col(b, cx, df)
+    return _col(a, cx, df), _col(b, cx, df)
+
+
+def _col(e, cx, df):
     from pysparkling.sql import functions as F
     t = e[0]
     if t == COL:
-        return F.col(e[1])
+        return _colref(e[1], cx, df)
     if t == LIT:
         return F.lit(e[1])
     if t == NEG:
-        return -_col(e[1])
+        return -_col(e[1], cx, df)
     if t == ARITH:
-        a, b = _col(e[2]), _col(e[3])
+        a, b = _pair(e[2], e[3], cx, df)
         return [lambda: a + b, lambda: a - b, lambda: a * b, lambda: a / b, lambda: a % b][e[1]]()
     if t == CMP:
-        a, b = _col(e[2]), _col(e[3])
+        a, b = _pair(e[2], e[3], cx, df)
         return [lambda: a == b, lambda: a < b, lambda: a <= b, lambda: a > b, lambda: a >= b][e[1]]()
     if t == AND:
-        return _col(e[1]) & _col(e[2])
+        a, b = _pair(e[1], e[2], cx, df)
+        return a & b
     if t == OR:
-        return _col(e[1]) | _col(e[2])
+        a, b = _pair(e[1], e[2], cx, df)
+        return a | b
     if t == NOT:
-        return ~_col(e[1])
+        return ~_col(e[1], cx, df)
     if t == ISNULL:
-        return _col(e[1]).isNull()
+        return _col(e[1], cx, df).isNull()
     if t == ISNOTNULL:
-        return _col(e[1]).isNotNull()
+        return _col(e[1], cx, df).isNotNull()
     if t == COALESCE:
-        return F.coalesce(*[_col(x) for x in e[1]])
+        # a column argument may be given by name
+        return F.coalesce(*[x[1] if x[0] == COL and cx.coin(0.3) else _col(x, cx, df) for x in e[1]])
     if t == CASE:
+        def val(v):      # when(cond, 1): non-string literals may be given raw (a raw string would name a column)
+            return v[1] if _raw_ok(v, strings=False) and cx.coin(0.4) else _col(v, cx, df)
         (c0, v0), rest = e[1][0], e[1][1:]
-        w = F.when(_col(c0), _col(v0))
+        w = F.when(_col(c0, cx, df), val(v0))
         for c, v in rest:
-            w = w.when(_col(c), _col(v))
-        return w if e[2] is None else w.otherwise(_col(e[2]))
+            w = w.when(_col(c, cx, df), val(v))
+        return w if e[2] is None else w.otherwise(val(e[2]))
     if t == ALIAS:
-        return _col(e[1]).alias(e[2])
+        c = _col(e[1], cx, df)
+        return c.name(e[2]) if cx.coin(0.3) else c.alias(e[2])
     if t == BETWEEN:
-        return _col(e[1]).between(_col(e[2]), _col(e[3]))
+        lo = e[2][1] if _raw_ok(e[2]) and cx.coin(0.4) else _col(e[2], cx, df)
+        hi = e[3][1] if _raw_ok(e[3]) and cx.coin(0.4) else _col(e[3], cx, df)
+        return _col(e[1], cx, df).between(lo, hi)
     if t == NE:
-        return _col(e[1]) != _col(e[2])
+        a, b = _pair(e[1], e[2], cx, df)
+        return a != b
     raise ValueError(f'bad expression tag {t}')
 
 
-def _sort_col(k):
-    c = _col(k[0])
-    return [lambda: c, c.asc, c.asc_nulls_first, c.asc_nulls_last, c.desc, c.desc_nulls_first, c.desc_nulls_last][k[1]]()
+_WRAP_METHOD = [None, 'asc', 'asc_nulls_first', 'asc_nulls_last', 'desc', 'desc_nulls_first', 'desc_nulls_last']
+
+
+def _sort_key(k, cx, df):
+    """a sort key: plain name / Column, or wrapped by the Column method or the function of the same name"""
+    from pysparkling.sql import functions as F
+    e, d = k
+    if d == PLAIN:
+        return e[1] if e[0] == COL and cx.coin() else _col(e, cx, df)
+    if e[0] == COL and cx.coin(0.3):
+        return getattr(F, _WRAP_METHOD[d])(e[1])            # F.desc('a')
+    return getattr(_col(e, cx, df), _WRAP_METHOD[d])()
 
 
 def _make_df(table):
@@ -140,15 +205,23 @@ def _make_df(table):
     return df
 
 
-def _apply(op, df, t2):
+def _apply(op, df, t2, cx):
     t = op[0]
     if t == SELECT:
-        return df.select(*[_col(e) for e in op[1]])
+        # a plain column may be selected by name
+        return df.select(*[e[1] if e[0] == COL and cx.coin() else _col(e, cx, df) for e in op[1]])
     if t == FILTER:
-        return df.filter(_col(op[1]))
+        c = op[1]
+        if c[0] == COL and cx.coin(0.3):
+            return df.filter(c[1]) if cx.coin() else df.where(c[1])       # a boolean column by name
+        cond = _col(c, cx, df)
+        k = cx.pick(3)
+        return df.filter(cond) if k == 0 else df.where(cond) if k == 1 else df[cond]
     if t == WITHCOL:
-        return df.withColumn(op[1], _col(op[2]))
+        return df.withColumn(op[1], _col(op[2], cx, df))
     if t == DROP:
+        if len(op[1]) == 1 and cx.coin():
+            return df.drop(_colref(op[1][0], cx, df))
         return df.drop(*op[1])
     if t == RENAME:
         return df.withColumnRenamed(op[1], op[2])
@@ -157,14 +230,22 @@ def _apply(op, df, t2):
     if t in (UNION, UNIONBYNAME):
         other = _make_df(t2)
         for o in op[1]:
-            other = _apply(o, other, None)
-        return df.union(other) if t == UNION else df.unionByName(other)
+            other = _apply(o, other, None, cx)
+        if t == UNION:
+            return df.unionAll(other) if cx.coin() else df.union(other)
+        return df.unionByName(other)
     if t == DISTINCT:
         return df.distinct()
     if t == DROPDUP:
-        return df.dropDuplicates(list(op[1]) if op[1] else None)
+        f = df.drop_duplicates if cx.coin() else df.dropDuplicates
+        if not op[1]:
+            return f() if cx.pick(3) == 0 else f(None) if cx.coin() else f(subset=[])
+        return f(subset=list(op[1])) if cx.coin() else f(list(op[1]))
     if t == SORT:
-        return df.orderBy(*[_sort_col(k) for k in op[1]])
+        keys = [_sort_key(k, cx, df) for k in op[1]]
+        kwargs = {} if op[2] is None else {'ascending': op[2]}
+        f = df.sort if cx.coin() else df.orderBy
+        return f(keys, **kwargs) if cx.coin(0.3) else f(*keys, **kwargs)
     if t == LIMIT:
         return df.limit(op[1])
     raise ValueError(f'bad operator tag {t}')
@@ -207,12 +288,13 @@ def _observe(df, unordered):
 
 
 def run_impl(case, final_only=False):
-    t1, t2, ops = case
+    t1, t2, ops, conv = case
+    cx = Conv(conv)
     df = _make_df(t1)
     flags = unordered_flags(ops)
     out = [] if final_only else [_observe(df, False)]
     for i, op in enumerate(ops):
-        df = _apply(op, df, t2)
+        df = _apply(op, df, t2, cx)
         if not final_only:
             out.append(_observe(df, flags[i + 1]))
     if final_only:
@@ -348,6 +430,21 @@ def _key_cmp(spec, x, y):
     return c if asc else -c
 
 
+def sort_specs(op):
+    """(ascending, nulls_first) per key from the documented meaning of sort(*cols, ascending=...): a key keeps
+    the ordering it was given (default ascending, nulls first) unless `ascending` -- one flag for all keys or
+    one per key -- is false for it, which means descending (nulls last, as Column.desc())"""
+    keys, asc = op[1], op[2]
+    own = [DIRSPEC[k[1]] for k in keys]
+    if asc is None:
+        return own
+    if isinstance(asc, list):
+        if len(asc) != len(keys):
+            raise OutOfScope('the length of the ascending list must equal the number of keys')
+        return [o if a else (False, False) for o, a in zip(own, asc)]
+    return own if asc else [(False, False)] * len(keys)
+
+
 def r_step(op, names, rows, t2):
     """reference result of one operator: (names, rows, mode); mode 'list' = this exact sequence,
     'bag' = these rows in any order, 'dedup' = see check_dropdup"""
@@ -392,7 +489,7 @@ def r_step(op, names, rows, t2):
         return names, rows, 'dedup'
     if t == SORT:
         keys = [[r_eval(k[0], names, r) for k in op[1]] for r in rows]
-        specs = [DIRSPEC[k[1]] for k in op[1]]
+        specs = sort_specs(op)
 
         def cmp(i, j):
             for s, x, y in zip(specs, keys[i], keys[j]):
@@ -437,7 +534,7 @@ def oracle(case, result):
     """C12 evaluated on the implementation alone: every step of the chain must return what the reference
     SQL interpreter returns when it is applied to the implementation's own previous frame, and the final
     frame must not depend on the partitioning."""
-    t1, t2, ops = case
+    t1, t2, ops, conv = case
     if t1[1] != t1[1].lower():
         return None       # ill-typed probe (upper-case type letters): outside the property, correspondence only
     if isinstance(result, Err):
@@ -469,7 +566,7 @@ def oracle(case, result):
             what = _what(op)
             return (f'{site}:{what}', f'step {i} {site} ({mode}): got {cr!r}, SQL gives {er!r}; input {pr!r}; op {op!r}')
     # partition independence: the same chain on the same rows in ONE partition per table
-    one = ((t1[0], t1[1], [[r for p in t1[2] for r in p]]), (t2[0], t2[1], [[r for p in t2[2] for r in p]]), ops)
+    one = ((t1[0], t1[1], [[r for p in t1[2] for r in p]]), (t2[0], t2[1], [[r for p in t2[2] for r in p]]), ops, conv)
     if len(t1[2]) > 1 or len(t2[2]) > 1:
         try:
             f1 = run_impl(one, final_only=True)
@@ -624,6 +721,21 @@ class Gen:
         t1 = r.choice('idsb')
         return (ISNULL if c == 'isnull' else ISNOTNULL, self.expr(env, t1, d))
 
+    def asc_arg(self, n):
+        """the `ascending` argument of sort / orderBy: absent, a scalar (bool or int) or one flag per key"""
+        r = self.rng
+        c = r.random()
+        if c < 0.4:
+            return None
+        if c < 0.6:
+            return r.choice([True, False, False, 1, 0])
+        flags = [r.choice([True, False]) for _ in range(n)]
+        if r.random() < 0.2:
+            flags = [int(f) for f in flags]
+        if r.random() < 0.04:
+            flags = flags[:-1] if r.random() < 0.5 else flags + [False]     # zip truncation (oracle: out of scope)
+        return flags
+
     def fresh(self, env, k=1):
         used = {n for n, _ in env}
         pool = [n for n in NAMES if n not in used]
@@ -717,7 +829,7 @@ class Gen:
                 else:
                     e = self.expr(env, r.choice('idsb'), min(depth, 2))
                 ks.append((e, r.randrange(7)))
-            return (SORT, ks), env
+            return (SORT, ks, self.asc_arg(len(ks))), env
         if c == 'limit':
             return (LIMIT, r.choice([0, 1, 2, 3, 5, 50])), env
         return None
@@ -738,7 +850,7 @@ class Gen:
             o, env = got
             ops.append(o)
             unordered = unordered or op_unordered(o)
-        return (t1, t2, ops)
+        return (t1, t2, ops, r.randrange(1, 1 << 30) if r.random() < 0.75 else 0)
 
 
 def _has_negative_zero(rows):
@@ -747,7 +859,7 @@ def _has_negative_zero(rows):
 
 def in_scope(case):
     """the reference interpreter can evaluate the whole chain (no % on negative numbers ...)"""
-    t1, t2, ops = case
+    t1, t2, ops = case[:3]
     names, rows = list(t1[0]), [r for p in t1[2] for r in p]
     unordered = False
     try:
@@ -756,6 +868,12 @@ def in_scope(case):
                 # which of the equal rows 0.0 / -0.0 survives depends on the (unspecified) order
                 return False
             unordered = unordered or op_unordered(op)
+            if op[0] == SORT and isinstance(op[2], list) and len(op[2]) != len(op[1]):
+                # zip() truncation in _sort_cols: kept for the correspondence only, the oracle skips the case
+                n = min(len(op[1]), len(op[2]))
+                if n == 0:
+                    continue
+                op = (SORT, op[1][:n], op[2][:n])
             names, rows, _ = r_step(op, names, rows, t2)
             if op[0] == SELECT or op[0] == WITHCOL:
                 for r_ in rows:
@@ -801,18 +919,54 @@ def exhaustive_cases(rng):
             cuts = sorted(rng.randint(0, len(rows)) for _ in range(k - 1))
             parts = [rows[a:b] for a, b in zip([0] + cuts, cuts + [len(rows)])]
             tbl = (['p', 'q'], t1 + t2, parts)
-            cases.append((tbl, dummy, [(SELECT, items)]))
+            cases.append((tbl, dummy, [(SELECT, items)], k - 1))
             if k == 1:
                 # filters: the predicate itself, its negation, and the sort of the pairs in every direction
                 for pred in ([(CMP, LT, p, q), (NE, p, q), (NOT, (CMP, LE, p, q))] if t1 != 'b'
                              else [(AND, p, q), (OR, p, q), (NOT, (AND, p, q)), (NOT, (OR, p, q)), p]):
-                    cases.append((tbl, dummy, [(FILTER, pred)]))
+                    cases.append((tbl, dummy, [(FILTER, pred)], 0))
                 for d1 in range(7):
-                    cases.append((tbl, dummy, [(SORT, [(p, d1), (q, (d1 * 3 + 1) % 7)])]))
+                    cases.append((tbl, dummy, [(SORT, [(p, d1), (q, (d1 * 3 + 1) % 7)], None)], d1))
     # int % on the non-negative domain
     rows = [(x, y) for x in [None, 0, 1, 2, 3, 7, 10, 1000] for y in [None, 1, 2, 3, 7]]
     cases.append(((['p', 'q'], 'ii', [rows]), dummy,
-                  [(SELECT, [(ALIAS, (ARITH, MOD, (COL, 'p'), (COL, 'q')), 'm')])]))
+                  [(SELECT, [(ALIAS, (ARITH, MOD, (COL, 'p'), (COL, 'q')), 'm')])], 0))
+    return cases
+
+
+ASC_SCALARS = [None, True, False, 1, 0]
+
+
+def sort_convention_cases(rng, tier):
+    """every way of calling sort / orderBy: each SortOrder wrapper (or none) per key x `ascending` absent / scalar
+    / list of flags, on a two-column table with nulls and ties; the convention seed varies names vs Columns vs
+    F.desc('a') vs col.desc(), sort vs orderBy, keys as varargs vs one list"""
+    dummy = (['z'], 'i', [[]])
+    dom = [None, 1, 2, 3]
+    rows = [(x, y) for x in dom for y in dom] + [(1, 2), (None, None), (3, 1)]
+    p, q = (COL, 'p'), (COL, 'q')
+    cases = []
+    seed = 1
+    for d1 in range(7):
+        for asc in ASC_SCALARS + [[True], [False], [1], [0]]:
+            for sd in (0, seed):
+                cuts = sorted(rng.randint(0, len(rows)) for _ in range(2))
+                parts = [rows[:cuts[0]], rows[cuts[0]:cuts[1]], rows[cuts[1]:]]
+                cases.append(((['p', 'q'], 'ii', parts), dummy, [(SORT, [(p, d1)], asc)], sd))
+                seed += 1
+    pairs = [(d1, d2) for d1 in range(7) for d2 in range(7)]
+    if tier == 'quick':
+        pairs = rng.sample(pairs, 12)
+    for d1, d2 in pairs:
+        for asc in [None, False, [True, True], [True, False], [False, True], [False, False], [1, 0]]:
+            cases.append(((['p', 'q'], 'ii', [rows[:9], rows[9:]]), dummy, [(SORT, [(p, d1), (q, d2)], asc)], seed))
+            seed += 1
+    # expression keys with flags
+    for d1 in (PLAIN, DESC_NF, ASC_NL):
+        for asc in ([True, False], [False, True]):
+            cases.append(((['p', 'q'], 'ii', [rows]), dummy,
+                          [(SORT, [((ARITH, ADD, p, q), d1), ((NEG, q), DESC)], asc)], seed))
+            seed += 1
     return cases
 
 
@@ -833,14 +987,15 @@ def dynamic_cases():
     for t1, t2 in [('i', 'b'), ('b', 'i'), ('d', 'b'), ('b', 'd'), ('b', 'b'), ('s', 's'), ('i', 'i'), ('d', 'd'), ('i', 'd')]:
         rows = [(x, y) for x in DYN_DOM[t1] for y in DYN_DOM[t2]]
         items = [(ALIAS, e, n) for n, e in full if t1 != 's' or n not in ('mul', 'div', 'neg')]
-        cases.append(((['p', 'q'], (t1 + t2).upper(), [rows]), dummy, [(SELECT, items)]))
-        cases.append(((['p', 'q'], (t1 + t2).upper(), [rows[:7], rows[7:]]), dummy, [(FILTER, p), (FILTER, (OR, p, q))]))
+        cases.append(((['p', 'q'], (t1 + t2).upper(), [rows]), dummy, [(SELECT, items)], 0))
+        cases.append(((['p', 'q'], (t1 + t2).upper(), [rows[:7], rows[7:]]), dummy, [(FILTER, p), (FILTER, (OR, p, q))], 0))
     return cases
 
 
 def generate(rng, tier):
     g = Gen(rng)
     heavy = exhaustive_cases(rng)
+    conv = sort_convention_cases(rng, tier)
     n = 1500 if tier == 'quick' else 24000
     light = []
     guard = 0
@@ -851,7 +1006,7 @@ def generate(rng, tier):
             continue
         light.append(c)
     # the exhaustive cases are large (81 rows x ~17 expressions): spread them over the shards
-    cases = list(_corpus()) + dynamic_cases()
+    cases = list(_corpus()) + dynamic_cases() + conv
     step = max(1, len(light) // (len(heavy) + 1))
     for i, c in enumerate(light):
         if i % step == 0 and heavy:
@@ -875,23 +1030,26 @@ def _totuple(c):
 
 
 def shrink_candidates(case):
-    t1, t2, ops = case
+    t1, t2, ops, conv = case
+    if conv:
+        yield (t1, t2, ops, 0)
     for i in range(len(ops)):
-        yield (t1, t2, ops[:i] + ops[i + 1:])
+        yield (t1, t2, ops[:i] + ops[i + 1:], conv)
     names, types, parts = t1
     if len(parts) > 1:
-        yield ((names, types, [[r for p in parts for r in p]]), t2, ops)
+        yield ((names, types, [[r for p in parts for r in p]]), t2, ops, conv)
     for pi, p in enumerate(parts):
         for ri in range(len(p)):
-            yield ((names, types, parts[:pi] + [p[:ri] + p[ri + 1:]] + parts[pi + 1:]), t2, ops)
+            yield ((names, types, parts[:pi] + [p[:ri] + p[ri + 1:]] + parts[pi + 1:]), t2, ops, conv)
     n2, ty2, parts2 = t2
     for pi, p in enumerate(parts2):
         for ri in range(len(p)):
-            yield (t1, (n2, ty2, parts2[:pi] + [p[:ri] + p[ri + 1:]] + parts2[pi + 1:]), ops)
+            yield (t1, (n2, ty2, parts2[:pi] + [p[:ri] + p[ri + 1:]] + parts2[pi + 1:]), ops, conv)
     for i, op in enumerate(ops):
         if op[0] == SELECT and len(op[1]) > 1:
             for j in range(len(op[1])):
-                yield (t1, t2, ops[:i] + [(SELECT, op[1][:j] + op[1][j + 1:])] + ops[i + 1:])
+                yield (t1, t2, ops[:i] + [(SELECT, op[1][:j] + op[1][j + 1:])] + ops[i + 1:], conv)
         if op[0] == SORT and len(op[1]) > 1:
             for j in range(len(op[1])):
-                yield (t1, t2, ops[:i] + [(SORT, op[1][:j] + op[1][j + 1:])] + ops[i + 1:])
+                asc = op[2][:j] + op[2][j + 1:] if isinstance(op[2], list) else op[2]
+                yield (t1, t2, ops[:i] + [(SORT, op[1][:j] + op[1][j + 1:], asc)] + ops[i + 1:], conv)
